@@ -410,10 +410,10 @@ class File:
                 raise NameError("Name already exist. Possible solution is to "
                                 "provide a new name when copying destination "
                                 "is the same as the source parent")
-            blk = copy_from._parent._h5group.copy(source=src, dest=self._h5group, name=name, cls=clsname,
-                                                  keep_id=keep_copy_id)
-            entity_id = blk.attrs["entity_id"]
-            return self.blocks[entity_id]
+            copy_from._parent._h5group.copy(source=src, dest=self._h5group, name=name, cls=clsname,
+                                            keep_id=keep_copy_id)
+            # the copy is identified by its name: its id may be that of the original
+            return self.blocks[name]
 
         if name in self._data:
             raise DuplicateName("Block with the given name already exists!")
